@@ -120,32 +120,35 @@ pub fn dump(toks: &[&str]) -> String {
 }
 
 
-/// Recording visitor (C20).
-struct Recorder { events: Vec<String> }
+/// Recording visitor (C20).  `events` name what is presented; `located` says where each presented entity is written (file, start).
+struct Recorder { events: Vec<String>, located: Vec<String> }
+impl Recorder {
+    fn at(&mut self, kind: &str, span: &slicec::slice_file::Span) { self.located.push(format!("{}@{}@{}:{}", kind, hexs(&span.file), span.start.row, span.start.col)); }
+}
 impl slicec::visitor::Visitor for Recorder {
     fn visit_file(&mut self, f: &SliceFile) { self.events.push(format!("file:{}", f.relative_path)); }
-    fn visit_module(&mut self, m: &Module) { self.events.push(format!("module:{}", m.nested_module_identifier())); }
-    fn visit_struct(&mut self, x: &Struct) { self.events.push(format!("struct:{}", x.parser_scoped_identifier())); }
-    fn visit_interface(&mut self, x: &Interface) { self.events.push(format!("interface:{}", x.parser_scoped_identifier())); }
-    fn visit_enum(&mut self, x: &Enum) { self.events.push(format!("enum:{}", x.parser_scoped_identifier())); }
-    fn visit_operation(&mut self, x: &Operation) { self.events.push(format!("operation:{}", x.parser_scoped_identifier())); }
-    fn visit_custom_type(&mut self, x: &CustomType) { self.events.push(format!("custom:{}", x.parser_scoped_identifier())); }
-    fn visit_type_alias(&mut self, x: &TypeAlias) { self.events.push(format!("alias:{}", x.parser_scoped_identifier())); }
-    fn visit_field(&mut self, x: &Field) { self.events.push(format!("field:{}@{}", x.parser_scoped_identifier(), sp(x.span()))); }
-    fn visit_parameter(&mut self, x: &Parameter) { self.events.push(format!("parameter:{}@{}", x.parser_scoped_identifier(), sp(x.span()))); }
-    fn visit_enumerator(&mut self, x: &Enumerator) { self.events.push(format!("enumerator:{}", x.parser_scoped_identifier())); }
+    fn visit_module(&mut self, m: &Module) { self.events.push(format!("module:{}", m.nested_module_identifier())); self.at("module", &m.span); }
+    fn visit_struct(&mut self, x: &Struct) { self.events.push(format!("struct:{}", x.parser_scoped_identifier())); self.at("struct", x.span()); }
+    fn visit_interface(&mut self, x: &Interface) { self.events.push(format!("interface:{}", x.parser_scoped_identifier())); self.at("interface", x.span()); }
+    fn visit_enum(&mut self, x: &Enum) { self.events.push(format!("enum:{}", x.parser_scoped_identifier())); self.at("enum", x.span()); }
+    fn visit_operation(&mut self, x: &Operation) { self.events.push(format!("operation:{}", x.parser_scoped_identifier())); self.at("operation", x.span()); }
+    fn visit_custom_type(&mut self, x: &CustomType) { self.events.push(format!("custom:{}", x.parser_scoped_identifier())); self.at("custom", x.span()); }
+    fn visit_type_alias(&mut self, x: &TypeAlias) { self.events.push(format!("alias:{}", x.parser_scoped_identifier())); self.at("alias", x.span()); }
+    fn visit_field(&mut self, x: &Field) { self.events.push(format!("field:{}@{}", x.parser_scoped_identifier(), sp(x.span()))); self.at("field", x.span()); }
+    fn visit_parameter(&mut self, x: &Parameter) { self.events.push(format!("parameter:{}@{}", x.parser_scoped_identifier(), sp(x.span()))); self.at("parameter", x.span()); }
+    fn visit_enumerator(&mut self, x: &Enumerator) { self.events.push(format!("enumerator:{}", x.parser_scoped_identifier())); self.at("enumerator", x.span()); }
     fn visit_type_ref(&mut self, x: &TypeRef) { self.events.push(format!("tr:{}:{}", x.span.file, sp(&x.span))); }
 }
-/// visit <opts> <hex file>...  ->  per file: (file ...) => events ;; ... || diagnostics
+/// visit <opts> <hex file>...  ->  per file: (file ...) => events @@ located ;; ... || diagnostics
 pub fn visit(toks: &[&str]) -> String {
     let options = parse_opts(toks[0]);
     let texts: Vec<String> = toks[1..].iter().map(|h| text_of(h)).collect();
     let refs: Vec<&str> = texts.iter().map(|s| s.as_str()).collect();
     let state = compile_from_strings(&refs, Some(&options));
     let per: Vec<String> = state.files.iter().map(|f| {
-        let mut r = Recorder { events: Vec::new() };
+        let mut r = Recorder { events: Vec::new(), located: Vec::new() };
         f.visit_with(&mut r);
-        format!("{} => {}", file(f), r.events.join(" "))
+        format!("{} => {} @@ {}", file(f), r.events.join(" "), r.located.join(" "))
     }).collect();
     let d = state.diagnostics.into_updated(&state.ast, &state.files, &options);
     format!("{} || {}", per.join(" ;; "), show_diags(&d))
